@@ -107,6 +107,38 @@ var Confusables = map[byte][]string{
 	'#':  {"\uff03"},
 }
 
+// EncodedAliases: spellings of the structural bytes in the encodings that surround HTML and SQL in
+// practice (URL, double URL, %u, HTML references, JavaScript / JSON / CSS / octal escapes, UTF-7,
+// overlong UTF-8). The library does not decode any of them (only numeric references, and only inside
+// URL attribute values), so a vector written with them is plain text; a "helpful" decoding step
+// added to the scanners changes that.
+var EncodedAliases = map[byte][]string{
+	'<':  {"%3C", "%3c", "%253C", "%u003c", "&lt;", "&lt", "&LT;", "&#60;", "&#x3c;", "&#0060;", "\\u003c", "\\u003C", "\\x3c", "\\74", "\\074", "\\u{3c}", "\\3c ", "+ADw-", "+ADw", "\xc0\xbc", "\xe0\x80\xbc"},
+	'>':  {"%3E", "%253E", "%u003e", "&gt;", "&gt", "&#62;", "&#x3e;", "\\u003e", "\\x3e", "\\76", "\\3e ", "+AD4-", "+AD4", "\xc0\xbe"},
+	'=':  {"%3D", "%3d", "%253D", "%u003d", "&equals;", "&#61;", "&#x3d;", "\\u003d", "\\x3d", "\\75", "\\3d ", "+AD0-", "+AD0", "\xc0\xbd"},
+	'\'': {"%27", "%2527", "%u0027", "&apos;", "&#39;", "&#x27;", "\\u0027", "\\x27", "\\47", "\\'", "+ACc-", "\xc0\xa7", "%EF%BC%87"},
+	'"':  {"%22", "%2522", "%u0022", "&quot;", "&#34;", "&#x22;", "\\u0022", "\\x22", "\\42", "\\\"", "+ACI-", "\xc0\xa2"},
+	' ':  {"%20", "+", "%2520", "%09", "%0a", "%0d", "%a0", "%00", "&nbsp;", "&#32;", "\\u0020", "\\x20", "\\t", "\\n", "+ACA-"},
+	'-':  {"%2D", "%2d", "&#45;", "\\u002d", "\\x2d", "+AC0-"},
+	'#':  {"%23", "&#35;", "\\u0023", "\\x23", "+ACM-"},
+	'/':  {"%2F", "%2f", "&#47;", "&sol;", "\\/", "\\u002f", "\\x2f", "+AC8-"},
+	';':  {"%3B", "&#59;", "&semi;", "\\u003b", "\\x3b"},
+	'(':  {"%28", "&#40;", "&lpar;", "\\u0028", "\\x28"},
+}
+
+// Encode replaces every occurrence of each byte of set in s by its k-th encoded alias.
+func Encode(s string, set string, k int) string {
+	var sb strings.Builder
+	for i := 0; i < len(s); i++ {
+		if alts, ok := EncodedAliases[s[i]]; ok && strings.IndexByte(set, s[i]) >= 0 {
+			sb.WriteString(alts[k%len(alts)])
+		} else {
+			sb.WriteByte(s[i])
+		}
+	}
+	return sb.String()
+}
+
 // Confuse replaces every occurrence of the structural bytes in s by their k-th look-alike.
 func Confuse(s string, k int) string {
 	var sb strings.Builder
